@@ -238,7 +238,7 @@ class Result:
     pass
 
 
-def _write_exec(path, text='#!/bin/sh\nexit 0\n', mode=0o755):
+def _write_exec(path, text=seams.MAIN_TEXT, mode=0o755):
     with open(path, 'w') as f:
         f.write(text)
     os.chmod(path, mode)
@@ -255,6 +255,12 @@ def execute(spec):
     outpath = os.path.join(sb, 'out' + ext)
     cmdpath = os.path.join(sb, 'cmd')
     ccpath = os.path.join(sb, 'cmd_cc')
+    if spec.get('same_basename') and spec.get('model_cc') is not None:
+        # two builds of one solver: same base name, different directories
+        os.makedirs(os.path.join(sb, 'new'))
+        os.makedirs(os.path.join(sb, 'ref'))
+        cmdpath = os.path.join(sb, 'new', 'solver')
+        ccpath = os.path.join(sb, 'ref', 'solver')
     usage = spec.get('usage')
     if usage not in ('no_infile', 'infile_is_dir'):
         with open(inpath, 'w', newline='') as f:
@@ -267,7 +273,7 @@ def execute(spec):
     elif usage != 'cmd_missing':
         _write_exec(cmdpath)
     if spec.get('model_cc') is not None:
-        _write_exec(ccpath)
+        _write_exec(ccpath, text=seams.CC_TEXT)
     for fn, data in (spec.get('preexisting') or {}).items():
         # files left behind by an earlier (killed) run
         with open(os.path.join(sb, os.path.basename(fn)), 'wb') as f:
